@@ -8,9 +8,13 @@ EXTENDS Integers, Sequences, FiniteSets, TLC, Json
 CONSTANTS MaxLen, MaxItems, Advs, WithHold
 VARIABLES items, fin, cancelled, held, closed, len, op
 vars == <<items, fin, cancelled, held, closed, len, op>>
-R(a, v, c, d) == op' = [a |-> a, v |-> v, ctx |-> c, d |-> d] /\ len' = len + 1
-Init == items = 0 /\ fin = FALSE /\ cancelled = FALSE /\ held = FALSE /\ closed = FALSE /\ len = 0 /\ op = [a |-> "init", v |-> 0, ctx |-> 0, d |-> 0]
+RQ(a, v, c, d, q, y) == op' = [a |-> a, v |-> v, ctx |-> c, d |-> d, noq |-> q, y |-> y] /\ len' = len + 1
+R(a, v, c, d) == RQ(a, v, c, d, FALSE, 0)
+Init == items = 0 /\ fin = FALSE /\ cancelled = FALSE /\ held = FALSE /\ closed = FALSE /\ len = 0 /\ op = [a |-> "init", v |-> 0, ctx |-> 0, d |-> 0, noq |-> FALSE, y |-> 0]
 Item == ~fin /\ items < MaxItems /\ items' = items + 1 /\ UNCHANGED <<fin, cancelled, held, closed>> /\ R("item", items + 1, 0, 0)
+\* the item is handed over and the harness goes on at once: the next step (a cancellation, a Next, Close ...) races with the
+\* hand-over of a batch that this item completes (y: how often the driver gives up the processor first)
+ItemRace == ~fin /\ items < MaxItems /\ items' = items + 1 /\ UNCHANGED <<fin, cancelled, held, closed>> /\ \E y \in {2, 5} : RQ("item", items + 1, 0, 0, TRUE, y)
 Finish == ~fin /\ fin' = TRUE /\ UNCHANGED <<items, cancelled, held, closed>> /\ \E a \in {"end", "srcerr", "srccanc"} : R(a, 0, 0, 0)
 NextC(c) == UNCHANGED <<items, fin, cancelled, held, closed>> /\ R("next", 0, c, 0)
 Cancel == ~cancelled /\ cancelled' = TRUE /\ UNCHANGED <<items, fin, held, closed>> /\ R("cancel", 0, 1, 0)
@@ -18,7 +22,7 @@ Adv(d) == UNCHANGED <<items, fin, cancelled, held, closed>> /\ R("adv", 0, 0, d)
 Hold == WithHold /\ held' = ~held /\ UNCHANGED <<items, fin, cancelled, closed>> /\ R(IF held THEN "unhold" ELSE "hold", 0, 0, 0)
 Close == closed' = TRUE /\ UNCHANGED <<items, fin, cancelled, held>> /\ R("close", 0, 0, 0)
 Next == /\ len < MaxLen /\ ~closed
-        /\ (Item \/ Finish \/ (\E c \in {0, 1} : NextC(c)) \/ Cancel \/ (\E d \in Advs : Adv(d)) \/ Hold \/ Close)
+        /\ (Item \/ ItemRace \/ Finish \/ (\E c \in {0, 1} : NextC(c)) \/ Cancel \/ (\E d \in Advs : Adv(d)) \/ Hold \/ Close)
 Spec == Init /\ [][Next]_vars
 View == <<items, fin, cancelled, held, closed, len>>
 LState == [n |-> items, f |-> fin, c |-> cancelled, h |-> held, cl |-> closed, l |-> len]
